@@ -364,11 +364,115 @@ def main(ctx):
                           f'{enc}', {'module': 'Wire', 'seq_start': start,
                                      'enc': enc})
             ctx.count(('seq', start, enc))
+    nonce_part(ctx, T, quick, rnd)
     ctx.assumptions += [
         'independent decoder trusts K and H reported by the key-log hook '
         '(key-exchange arithmetic itself is C03) and the `cryptography` '
         'primitives; UMAC tags are not verified (no independent UMAC here)',
     ]
+
+
+SPECT = os.path.join(VERIF, 'specs', 'Transport')
+
+
+def nonce_tlc(ctx, name, variant='rfc', invs=(), steps=3, w=8, emit=False,
+              expect=None):
+    tag = f'c02_nonce_{name}_{os.getpid()}'
+    cfg = f'_{tag}.cfg'
+    with open(os.path.join(SPECT, cfg), 'w') as f:
+        f.write(f'CONSTANTS\n  W = {w}\n  F = 1\n  Steps = {steps}\n'
+                f'  Variant = "{variant}"\nSPECIFICATION Spec\n'
+                'CHECK_DEADLOCK FALSE\n' +
+                ''.join(f'INVARIANT {i}\n' for i in invs) +
+                ('INVARIANT Emit\n' if emit else ''))
+    try:
+        if emit:
+            rows, res = tlc.bfs_scripts(SPECT, 'Nonce', cfg, tag)
+        else:
+            rows, res = None, tlc.run(SPECT, 'Nonce', cfg, tag, workers=4,
+                                      timeout=900)
+    finally:
+        tlc.cleanup(tag)
+        os.remove(os.path.join(SPECT, cfg))
+    ctx.require_tlc_ok(f'Nonce {name} W={w} Steps={steps} {variant}', res,
+                       expect_violation=expect)
+    return rows
+
+
+def nonce_part(ctx, T, quick, rnd):
+    """4. The AES-GCM nonce (specs/Transport/Nonce.tla): every carry pattern
+    of the invocation counter, on the cipher objects and in live sessions."""
+    from harness.drivers import nonce as N
+    steps = 3
+    nonce_tlc(ctx, 'mc', invs=['InStep', 'NonceFresh', 'FixedUntouched',
+                               'CounterIsSum'])
+    for variant, inv, st in (('carry_stops_half', 'InStep', 3),
+                             ('low_limb_only', 'InStep', 3),
+                             ('low_limb_only', 'NonceFresh', 4),
+                             ('carry_into_fixed', 'FixedUntouched', 3),
+                             ('carry_into_fixed', 'InStep', 3),
+                             ('no_wrap', 'NonceFresh', 3),
+                             ('no_wrap', 'CounterIsSum', 3)):
+        nonce_tlc(ctx, f'sens_{variant}_{inv}', variant=variant, invs=[inv],
+                  steps=st, w=4, expect=inv)
+    rows = nonce_tlc(ctx, 'rows', emit=True)
+    ctx.require(len(rows) == 2 * 3 ** 8, f'Nonce rows: {len(rows)}')
+    rows = [(init, [w['$set'] if isinstance(w, dict) else list(w)
+                    for w in wraps]) for init, wraps in rows]
+    # the driver's mapping of limbs to bytes has the carries of the model
+    for (fixed, ctr), wraps in rows[::97]:
+        ns = N.rfc_nonces(N.concrete(fixed, ctr), steps + 1)
+        mine = [sorted(N.wrapped_bytes(a, b)) for a, b in zip(ns, ns[1:])]
+        if mine != [sorted(w) for w in wraps]:
+            raise MachineryError(f'limb mapping: {fixed} {ctr}: model wraps '
+                                 f'{wraps}, bytes {mine}')
+    # ---- on the cipher objects: every row ----
+    algs = sorted(N.ALGS)
+    for i, ((fixed, ctr), wraps) in enumerate(rows):
+        for alg in (algs if not quick or i % 5 == 0 else
+                    [algs[(i + ctx.seed) % 2]]):
+            bad = N.unit_case(alg, fixed, ctr, steps, salt=ctx.seed % 200)
+            ctx.count(('nonce-unit', alg, tuple(fixed), tuple(ctr)),
+                      nontrivial=any(wraps))
+            if bad:
+                ctx.violation({'module': 'Nonce', 'alg': alg.decode(),
+                               'carry': [sorted(w) for w in wraps],
+                               'clause': bad[0].split(':')[0]},
+                              f'{alg.decode()} from nonce '
+                              f'{N.concrete(fixed, ctr).hex()} (model fixed '
+                              f'{list(fixed)} counter {list(ctr)}): '
+                              + '; '.join(bad),
+                              replay={'kind': 'nonce-unit', 'alg': alg.decode(),
+                                      'fixed': list(fixed), 'ctr': list(ctr),
+                                      'steps': steps})
+    # ---- live sessions: one per length of the carry chain and fixed field,
+    # plus model-chosen others; both directions start from chosen nonces ----
+    def chain(k, top):
+        return tuple([top] * (8 - k) + [2] * k)
+    chosen = [((f,), chain(k, top)) for k in range(9) for f in (0, 2)
+              for top in ((1,) if quick else (0, 1))]
+    pool = [r[0] for r in rows if any(r[1])]
+    chosen += [tuple(map(tuple, c)) for c in
+               rnd.sample(pool, 6 if quick else 60)]
+    pl = [b'n' * 9, b'o' * 33, b'p' * 5, b'q' * 70]
+    for j, (fixed, ctr) in enumerate(chosen):
+        alg = algs[j % 2].decode()
+        other = chosen[(j * 7 + 3) % len(chosen)]
+        ivs = {'cs': N.concrete(fixed, ctr), 'sc': N.concrete(*other)}
+        kw = dict(encryption_algs=[alg])
+        r = T.run_session(pl, client_kw=kw, server_kw=kw,
+                          after_connect=T.iv_jump(ivs))
+        if isinstance(r.get('exc'), T.NoNonceAccess):
+            ctx.assumptions.append(
+                'live nonce sessions skipped: the nonce of the GCM cipher '
+                'object is not reachable from the connection on this tree '
+                '(the cipher-object part above still ran)')
+            break
+        judge_session(ctx, r, pl, f'{alg} session continued from nonces '
+                      f'cs={ivs["cs"].hex()} sc={ivs["sc"].hex()}',
+                      {'module': 'Nonce', 'live': True, 'alg': alg,
+                       'fixed': list(fixed), 'ctr': list(ctr)})
+        ctx.count(('nonce-live', alg, fixed, ctr), nontrivial=True)
 
 
 def run_chunked(T, payloads, kw, cuts, jitter):
